@@ -28,7 +28,9 @@ RULE = ("cases = (type-consistent nested trees, depth <= 4, for the nine levels 
         "depth 1-3: caller dicts, YAML anchor/alias, a shared module-level object in a .py file) in the levels, history and formats "
         "families, FORMAT METAMORPHOSIS (one assignment of trees realised with yaml / yml / json / py for all "
         "file levels and with each file level alone as .py: every rendering must satisfy the property and all must give the same "
-        "view; key vocabulary with one / two leading underscores, trailing underscores, dunder-like names at top level and nested; "
+        "view; key vocabulary with one / two leading underscores, trailing underscores, dunder-like names, names of dict / DataProxy / Config "
+        "methods and attributes (keys, items, get, update, merge, clone, prefix, _config, ...) and names that equal / contain / end with the "
+        "env prefix (invoke, reinvoke, invoke_x, ...) at top level and nested; "
         "don't-care: top-level `__*` names in a .py file), HISTORIES on one Config object (levels loaded, replaced by different content, emptied / unloaded "
         "again, attribute writes, RUNTIME EDITS through the object (del by item / attribute, pop, clear() of a section, the same key written again, "
         "sibling deletions, depth 1-4: a removed setting is absent until written again, a written one wins over every level), loads with deferred merge=False and explicit merge(), one load_shell_env at the end; the view is read and judged after EVERY operation and the caller's "
@@ -63,6 +65,19 @@ FILE_LEVELS = ["system", "user", "project", "runtime"]
 KEYS = ["a", "b", "c", "d", "e", "k1", "key", "x_y", "sec", "opt", "Up", "n0"]
 # names a file format might treat specially: one / two leading underscores, trailing underscores, dunder-like
 UNDER_KEYS = ["_p", "__q", "t_", "__d__", "_", "_p_q", "r__"]
+# keys are opaque names: names of dict / DataProxy / Config methods and attributes are ordinary setting names
+METHOD_KEYS = ["keys", "items", "values", "get", "pop", "update", "copy", "clear", "setdefault", "popitem", "merge", "clone",
+               "prefix", "file_prefix", "env_prefix", "load_defaults", "from_data", "_config"]
+# ... and so are names that equal / contain / end with the env prefix (INVOKE_ for these cases)
+PREFIX_KEYS = ["invoke", "reinvoke", "invoke_x", "x_invoke", "INVOKE", "invoke_"]
+
+
+def attr_ok(k):
+    """may the harness reach this setting by ATTRIBUTE syntax?  Real attributes and methods of the config object win
+    over settings of the same name (documented), and private-looking names are not settings syntax: those go by item."""
+    from invoke.config import Config
+    dict_protocol = set(dir(dict)) | set(getattr(Config, "_proxies", ())) | {"has_key", "iteritems", "iterkeys", "itervalues"}
+    return k.isidentifier() and not k.startswith("_") and not hasattr(Config, k) and k not in dict_protocol
 LEAF_TYPES = ["str", "int", "bool", "none_or_str", "list", "float", "mixed"]
 TYPE_W = [5, 4, 4, 2, 1, 1, 2]
 ENV_TYPES = ("str", "int", "bool", "none_or_str")
@@ -77,6 +92,10 @@ def gen_schema(rng, depth=0):
     keys = rng.sample(KEYS, n)
     if rng.random() < (0.5 if depth == 0 else 0.2):
         keys += rng.sample(UNDER_KEYS, rng.choice([1, 1, 2]))
+    if rng.random() < 0.3:
+        keys += rng.sample(METHOD_KEYS, rng.choice([1, 1, 2]))
+    if rng.random() < 0.25:
+        keys += rng.sample(PREFIX_KEYS, 1)
     for k in keys:
         if depth < 3 and rng.random() < 0.4:
             out[k] = gen_schema(rng, depth + 1)
@@ -556,7 +575,7 @@ def apply_mods(c, tree, style):
     r = random.Random(style)
 
     def write(cur, k, v):
-        if r.random() < 0.5 and k.isidentifier() and not k.startswith("_"):
+        if r.random() < 0.5 and attr_ok(k):
             setattr(cur, k, v)
         else:
             cur[k] = v
@@ -571,7 +590,7 @@ def apply_mods(c, tree, style):
                         write(cur, k, copy.deepcopy(v))  # a whole new section at once
                         continue
                     write(cur, k, {})
-                go(getattr(cur, k) if (r.random() < 0.5 and k.isidentifier() and not k.startswith("_")) else cur[k], v)
+                go(getattr(cur, k) if (r.random() < 0.5 and attr_ok(k)) else cur[k], v)
             else:
                 write(cur, k, copy.deepcopy(v))
     go(c, tree)
@@ -1037,13 +1056,13 @@ def run_history(case):
                     cur = c
                     path = op["path"] if k == "clear" else op["path"][:-1]
                     for n, key in enumerate(path):
-                        plain_attr = key.isidentifier() and not key.startswith("_")
+                        plain_attr = attr_ok(key)
                         cur = getattr(cur, key) if (plain_attr and (i + n) % 2) else cur[key]
                     if k == "clear":
                         cur.clear()
                     else:
                         key = op["path"][-1]
-                        how = op["how"] if (key.isidentifier() and not key.startswith("_")) or op["how"] != "attr" else "item"
+                        how = op["how"] if attr_ok(key) or op["how"] != "attr" else "item"
                         if how == "attr":
                             delattr(cur, key)
                         elif how == "pop":
@@ -1330,6 +1349,12 @@ def run(ctx):
                 out.hist["fmt:" + f["suffix"]] += 1
                 out.hist["decoys:%d" % len(f["decoys"] + f["broken"])] += 1
             out.hist["env_vars:%d" % min(len(c["environ"]), 3)] += 1
+            allp = [p for l, x in c["levels"].items() if x for p, _ in leaves(build(x))]
+            out.hist["method_named_key:%d" % any(k in METHOD_KEYS for p in allp for k in p)] += 1
+            envp = [p for p in set(allp) if "INVOKE_" + var_of(p) in c["environ"]]
+            out.hist["env_names_path_through_method_named_section_or_sibling:%d" % any(
+                any(k in METHOD_KEYS for k in q) for p in envp for q in set(allp) if q[:1] == p[:1])] += 1
+            out.hist["prefix_word_key_nonfinal_in_env_path:%d" % any(any(("invoke" in k.lower()) for k in p[:-1]) or "invoke_" in p[-1].lower() for p in envp)] += 1
             out.hist["blank_first_candidate:%d" % min(2, sum(1 for f in c["files"].values() if f.get("blank")))] += 1
             sh = c.get("shares") or {}
             out.hist["levels_with_shared_subobject:%d" % min(3, len(sh))] += 1
